@@ -157,7 +157,13 @@ def run_case(case):
     D = 2.0 * (np.abs(R).max() / (1.0 - g) + init_mag) + 1e-300
     need = common.sweeps_needed(g, thr, D)
     hard = 40000 if case.get("tier") == "thorough" else 6000
-    cap = (1000 if case.get("tier") == "thorough" else 150) if sv == "pi" else min(hard, need + 50)
+    cap = min(hard, need + 50)
+    if sv == "pi":
+        # policy iteration can alternate for ever between policies that are tied up to rounding (no liveness is claimed);
+        # every iteration costs one evaluation, so the iteration cap follows from a budget of evaluation sweeps per case
+        per_eval = max(1, min(int(case["max_eval_iter"]), int(need)))
+        budget = 150_000 if case.get("tier") == "thorough" else 40_000
+        cap = int(max(12, min(1000 if case.get("tier") == "thorough" else 150, budget // per_eval)))
     if sv == "sa":
         cap = min(hard, 2 * need + 50)
     if struct.startswith("dag") and sv != "pi":
